@@ -15,7 +15,7 @@ from .core import AnalysisError, norm, handler_name
 
 INF = 99
 CAP = 3
-TRACK = ("TRUE", "FALSE", "NONE", "TOKEN")
+TRACK = ("TRUE", "FALSE", "NONE", "TOKEN", "BOOL")
 SIGNALS = ("ValueError", "StopIteration", "ParseError", "Exception")
 
 EXTRA_PARENTS = {
@@ -117,6 +117,8 @@ class Out:
 
 
 def keepval(v):
+    if isinstance(v, tuple):
+        return 0 < len(v) <= 6 and all(keepval(x) or x in ("OTHER", None) for x in v) and any(keepval(x) for x in v)
     return v in TRACK or (isinstance(v, str) and v[:2] in ("M:", "K:", "E:", "O:"))
 
 
@@ -192,6 +194,15 @@ class Interp:
         self._value_uses = {}
 
     # ---------------------------------------------------------------- util
+    def enum_classes(self):
+        if not hasattr(self, "_enums"):
+            self._enums = {}
+            for m in self.repo.modules.values():
+                for cname, cnode in m.classes.items():
+                    if any(norm(b).split(".")[-1] in ("Enum", "IntEnum") for b in cnode.bases):
+                        self._enums[cname] = {t.id for n in cnode.body if isinstance(n, ast.Assign) for t in n.targets if isinstance(t, ast.Name)}
+        return self._enums
+
     def clsof(self, kind):
         return {"parser": self.cfg.parser, "decoder": self.cfg.decoder,
                 "grammar": self.cfg.grammar, "token": "Token"}.get(kind)
@@ -484,8 +495,13 @@ class Interp:
         raise AnalysisError(f"unsupported statement {type(s).__name__} in {self.fq()}")
 
     def refine(self, test, st):
-        """Unknown condition: both branches, refining tracked names where the
-        test is `name`, `not name`, `name is None` etc."""
+        """Unknown condition: both branches, refining a tracked boolean name where the test is `name` / `not name`."""
+        t, neg = test, False
+        while isinstance(t, ast.UnaryOp) and isinstance(t.op, ast.Not):
+            t, neg = t.operand, not neg
+        if isinstance(t, ast.Name) and st.get(t.id) == "BOOL":
+            a, b = st.set(t.id, "TRUE"), st.set(t.id, "FALSE")
+            return ({b}, {a}) if neg else ({a}, {b})
         return {st}, {st}
 
     def truth(self, test, st):
@@ -563,12 +579,21 @@ class Interp:
                 exits = o.normal
             out.normal |= exits
             return out
+        meths = None
         if isinstance(it, (ast.Tuple, ast.List)) and it.elts and all(
                 isinstance(e, ast.Attribute) and isinstance(e.value, ast.Name) and e.value.id == "self" for e in it.elts):
-            # literal tuple of bound methods: unrolled
+            meths = ["M:" + e.attr for e in it.elts]
+        elif isinstance(it, ast.Name):
+            vals = {st.get(it.id) for st in states}
+            if len(vals) == 1:
+                v0 = next(iter(vals))
+                if isinstance(v0, tuple) and v0 and all(isinstance(x, str) and x.startswith("M:") for x in v0):
+                    meths = list(v0)
+        if meths is not None:
+            # (literal or named) tuple of bound methods: unrolled
             cur, broke = set(states), set()
-            for e in it.elts:
-                o = self.block(s.body, {self.assign(s.target, "M:" + e.attr, st) for st in cur})
+            for mv in meths:
+                o = self.block(s.body, {self.assign(s.target, mv, st) for st in cur})
                 out.returns |= o.returns
                 out.raises |= o.raises
                 broke |= o.breaks
@@ -743,6 +768,13 @@ class Interp:
                     v = "TRUE" if same == isinstance(op, ast.Is) else "FALSE"
                 if isinstance(op, (ast.Eq, ast.NotEq)) and {a, b} == {"TOKEN", "NONE"}:
                     v = "FALSE" if isinstance(op, ast.Eq) else "TRUE"   # a Token never equals None
+                if isinstance(op, (ast.Is, ast.IsNot)) and "NONE" in (a, b) and ("BOOL" in (a, b) or "TRUE" in (a, b) or "FALSE" in (a, b)
+                                                                                 or isinstance(a, tuple) or isinstance(b, tuple)):
+                    v = "FALSE" if isinstance(op, ast.Is) else "TRUE"   # a bool / a tuple is not None
+                if isinstance(op, (ast.Is, ast.IsNot, ast.Eq, ast.NotEq)) and isinstance(a, str) and isinstance(b, str) \
+                        and a.startswith("K:") and b.startswith("K:") and "K:STR" not in (a, b):
+                    same = (a == b)                                      # two named constants (Enum members)
+                    v = "TRUE" if same == isinstance(op, (ast.Is, ast.Eq)) else "FALSE"
                 res.append((v, s2, None, None))
             return res
         if isinstance(e, ast.BoolOp):
@@ -788,6 +820,14 @@ class Interp:
                 return [("OTHER", st, None, None)]
             return [("OTHER" if not exc else None, s1, exc, org) for (v, s1, exc, org) in self.expr(e.value, st)]
         if isinstance(e, ast.Attribute):
+            # a bound method of the object under analysis, as a value (handed to a helper, kept in a tuple)
+            if isinstance(e.value, ast.Name) and e.value.id == "self" and self.cur and self.cur[-1][0] in ("parser", "decoder", "token"):
+                c_, fn_ = self.repo.resolve_method(self.clsof(self.cur[-1][0]), e.attr)
+                if fn_ is not None:
+                    return [("M:" + e.attr, st, None, None)]
+            # a member of an Enum class of the module: a constant
+            if isinstance(e.value, ast.Name) and e.value.id in self.enum_classes() and e.attr in self.enum_classes()[e.value.id]:
+                return [(f"K:{e.value.id}.{e.attr}", st, None, None)]
             res = []
             for (v, s1, exc, org) in self.expr(e.value, st):
                 res.append(("OTHER" if not exc else None, s1, exc, org))
@@ -1055,6 +1095,9 @@ class Interp:
                 return ok("OTHER") + [(None, st, "ValueError", w)]
             if name == "str":
                 return ok("K:STR")
+            if name == "bool" and len(e.args) == 1:
+                v = argvals[0]
+                return ok({"TRUE": "TRUE", "FALSE": "FALSE", "NONE": "FALSE", "TOKEN": "BOOL"}.get(v, "BOOL"))
             if name in ("frozenset", "set") and e.args and not isinstance(e.args[0], (ast.Constant,)):
                 # elements produced by the parser may be unhashable (a sequence is a list; an ODL set is a set)
                 if self.cur[-1][0] == "parser":
